@@ -23,6 +23,14 @@ Oracles (all written from the property statement, none calls the code being judg
     edge-free third-core state (patched with the harness' own parameter assignments made since).
   * ambient: after every Core.add / Core.removeAssembly (also the ones armi performs itself while building and converting)
     the lookup tables equal what the child list says.
+  * EdgeAssemblyChanger.scaleParamsRelatedToSymmetry in the edge-carrying state: the harness writes half values of
+    volume-integrated scalars and multigroup flux lists on both twins (paired by rotating the cell centre by 120 degrees, not
+    by armi's own ordering); afterwards the block on the 0-degree line holds the element-wise sum of the two stored halves, its
+    scalar flux is that sum over the volume of the whole hexagon (leaf component volumes), nothing else changed, and the
+    following removeEdgeAssemblies gives the reference state with exactly those sums.
+  * parameters written while the core is full (the production order: convert, solve, restore): after restorePreviousGeometry
+    every original holds what was written, the centre assembly's volume-integrated values divided by 3.
+  * core.zones (a location lookup) after restore / remove-edge lists the locations it listed before.
 """
 import math
 import random
@@ -37,7 +45,9 @@ RULE = (
     "hole probability in {0,.15,.35}, policy for the 0-degree symmetry line in {as generated, none, all, ring-3 cell missing, only ring-3 cell}, "
     "centre assembly absent in ~5 % of the cores, zones defined on 30 %; parameters of every location class assigned to random subsets of blocks before and between "
     "conversions; 4-9 operations per core drawn from {convert(new changer | re-used changer | Core.growToFullCore), restorePreviousGeometry, "
-    "addEdgeAssemblies(new | re-used changer), removeEdgeAssemblies(adding changer | new changer), assign, composition edit, documented no-ops}. "
+    "addEdgeAssemblies(new | re-used changer), removeEdgeAssemblies(adding changer | new changer), assign (also while the core is full), composition edit, "
+    "scaleParamsRelatedToSymmetry on the edge-carrying core (halves of 1-5 volume-integrated scalars and 0-3 multigroup flux lists/arrays written on both twins, equal halves of "
+    "the current value or two unrelated values; all parameters | explicit subset), documented no-ops}. "
     "A case = one operation on one core followed by its oracle; distinct = (operation, state before, rings, line policy, centre present, "
     "what kinds of values were assigned since the last conversion); non-trivial = the core has at least one assembly besides the centre."
 )
@@ -47,14 +57,18 @@ TOLERANCES = {
     "derived_rel": 1e-12,       # mass / volume recomputed after a restore
     "coord_rel_to_pitch": 1e-9,
     "copy_mass_rel": 1e-12,
+    "edge_sum_rel": 1e-14,      # lower + upper half of a stored value: one addition (exact up to the order of the operands)
+    "edge_flux_rel": 1e-9,      # sum(mgFlux) / volume of the whole hexagon: a recomputed quantity
 }
 EXHAUSTIVE = {"quick": False, "thorough": False}
 EXHAUSTIVE_PART = "none (sampled cores and histories)"
 FLOORS = {
     "quick": {"convert.locations": 100, "convert.copies": 1400, "convert.totals": 100, "restore.obs": 100, "edge-roundtrip.obs": 25,
-              "addEdge.originals": 80, "noop.obs": 90, "ambient.lookups": 4000, "independence": 280},
+              "addEdge.originals": 80, "noop.obs": 90, "ambient.lookups": 4000, "independence": 280,
+              "scaleEdge.sums": 15, "scaleEdge.rest": 15, "restore.centre-thirds": 150, "restore.zones": 30, "edge-roundtrip.zones": 8},
     "thorough": {"convert.locations": 1000, "convert.copies": 14000, "convert.totals": 1000, "restore.obs": 1000, "edge-roundtrip.obs": 250,
-                 "addEdge.originals": 800, "noop.obs": 900, "ambient.lookups": 40000, "independence": 2800},
+                 "addEdge.originals": 800, "noop.obs": 900, "ambient.lookups": 40000, "independence": 2800,
+                 "scaleEdge.sums": 150, "scaleEdge.rest": 150, "restore.centre-thirds": 1500, "restore.zones": 300, "edge-roundtrip.zones": 80},
 }
 TIMEOUT = {"quick": 900, "thorough": 7200}
 ASSUMPTIONS = [
@@ -63,6 +77,7 @@ ASSUMPTIONS = [
 ]
 
 _CTX = {"rec": None, "w": None}
+_EVER_ASSIGNED = set()  # block parameter names the harness has written so far in this process (armi's assigned-flags live on the definitions)
 
 
 def plan(tier, seed):
@@ -385,6 +400,13 @@ def diff_obs(ref, got, vi, centre_scaled=True, limit=6):
     return out
 
 
+def third_of(v):
+    """a stored full-core value of the centre assembly as the third core holds it (lists stay lists)"""
+    if type(v) is list:
+        return [x / 3 for x in v]
+    return v / 3
+
+
 def _numeric(n):
     """flat floats out of a normal form (scalar, nd, list)"""
     if isinstance(n, bool) or n is None:
@@ -695,6 +717,7 @@ def assign_params(rng, core, tag):
                 if _CTX["rec"] is not None:
                     _CTX["rec"].reject("parameter setter refused the generated value")
                 break
+            _EVER_ASSIGNED.add(nme)
             done.append((ij(a), k, nme, b.p[nme]))  # what armi stored (a setter may normalise the type)
     if rng.random() < .5:
         kinds.add("assembly-scalar")
@@ -814,6 +837,10 @@ class Case:
         self.added_by_convert = 0
         self.composition_edited_in_edge_state = False
         self.noop_add_edge_pending = False  # an addEdgeAssemblies call added nothing and no assembly was added/removed since
+        self.full_centre = {}      # (blockIndex, name) -> value the harness wrote on the centre assembly while the core was full
+        self.full_assigned = False  # something was written while the core was full (since the open convert)
+        self.conv_list = []        # armi's list of parameters scaled on the centre by the open convert (only used to name a mechanism)
+        self.ever_before_convert = set()  # parameter names the harness had ever written when the open convert started
 
     # -- bookkeeping
     def w(self, **kw):
@@ -836,7 +863,35 @@ class Case:
         return obs(self.core, self.seen_names, self.seen_nums, self.meta["rings"])
 
     def zones_obs(self):
-        return {z.name: sorted(z) for z in self.core.zones}
+        out = {"locations": {z.name: sorted(z) for z in self.core.zones}, "zoneOf": {}}
+        if len(self.core.zones):
+            for a in self.core:
+                z = self.core.zones.findZoneItIsIn(a)
+                out["zoneOf"][a.getName()] = None if z is None else z.name
+        return out
+
+    def judge_zones(self, where, monitor):
+        """core.zones answers 'is this location in that zone' / 'which zone is this assembly in': location lookups."""
+        ref = getattr(self, "ref_zones", None)
+        if ref is None or not ref["locations"]:
+            return
+        self.rec.hit(monitor)
+        now = self.zones_obs()
+        if now["zoneOf"] != ref["zoneOf"]:
+            bad = sorted(k for k in set(now["zoneOf"]) | set(ref["zoneOf"]) if now["zoneOf"].get(k, "<absent>") != ref["zoneOf"].get(k, "<absent>"))
+            self.rec.violation("%s/zone-of-assembly-changed" % where, "zones.findZoneItIsIn resolves differently for %s" % bad[:5], self.w())
+        if now["locations"] != ref["locations"]:
+            extra = {k: sorted(set(v) - set(ref["locations"].get(k, []))) for k, v in now["locations"].items()}
+            lost = {k: sorted(set(v) - set(now["locations"].get(k, []))) for k, v in ref["locations"].items()}
+            extra = {k: v for k, v in extra.items() if v}
+            lost = {k: v for k, v in lost.items() if v}
+            occupied = {a.getLocation() for a in self.core}
+            stale_only = bool(extra) and not lost and all(loc not in occupied for v in extra.values() for loc in v)
+            self.rec.violation("%s/%s" % (where, "zones-keep-locations-of-removed-assemblies" if stale_only else "zones-changed"),
+                               "core.zones lists other locations than before the conversion: added %s, lost %s ('%s' in zone '%s' was False, is True)" % (
+                                   {k: v[:4] for k, v in extra.items()}, {k: v[:4] for k, v in lost.items()},
+                                   (list(extra.values()) or [[None]])[0][0], (list(extra) or [None])[0]),
+                               self.w(zones_before={k: len(v) for k, v in ref["locations"].items()}, zones_after={k: len(v) for k, v in now["locations"].items()}))
 
     def take_ref(self):
         self.composition_edited_in_edge_state = False  # only called in the edge-free third-core state
@@ -888,16 +943,34 @@ class Case:
 
     # -- operations
     def op_assign(self):
-        done, kinds = assign_params(self.rng, self.core, self.state())
+        st = self.state()
+        done, kinds = assign_params(self.rng, self.core, st)
         n = edit_composition(self.rng, self.core) if self.rng.random() < .35 else 0
         self.kinds_since |= set(kinds) | ({"composition"} if n else set())
-        self.hist.append("assign[%s]%s" % (",".join(kinds), "+composition" if n else ""))
-        if self.state() == "third":
+        self.hist.append("assign%s[%s]%s" % ("-on-full-core" if st == "full" else "", ",".join(kinds), "+composition" if n else ""))
+        if st == "third":
             self.take_ref()
         else:
+            if st == "full":
+                # What the statement fixes for values written on the full core: after the restore every original holds what was
+                # written (the copies go away with their values), the centre assembly - which stands for a third of itself in
+                # the third core - holds a third of every volume-integrated value (restorePreviousGeometry: "changing the
+                # parameters of the center assembly from full core to one third core").
+                self.full_assigned = True
+                self.rec.add("assignments_on_full_core")
+                vi = set(vi_names(self.core))
+                thirds = []
+                for cell, kb, nme, v in done:
+                    if cell == (0, 0) and kb is not None and nme in vi and v is not None:
+                        self.full_centre[(kb, nme)] = v
+                        thirds.append((cell, kb, nme, third_of(v)))
+                    else:
+                        thirds.append((cell, kb, nme, v))
+                done = thirds
             self.patch_ref(done)
-            if n:  # composition edits in an edge state: re-observe the edited originals
-                self.composition_edited_in_edge_state = True
+            if n:  # composition edits in an edge / full state: re-observe the edited originals
+                if st == "third+edges":
+                    self.composition_edited_in_edge_state = True
                 cur = self.observe()
                 for cell, ent in cur["assems"].items():
                     if cell in self.ref["assems"] and self.ref["assems"][cell].get("id") == ent.get("id"):
@@ -949,6 +1022,7 @@ class Case:
         # state of armi's scaling flags at entry, only used to name the mechanism of a failure
         flags = {pd.name: bool(pd.assigned & parameters.SINCE_LAST_GEOMETRY_TRANSFORMATION) for pd in core.getFirstBlock().p.paramDefs if pd.name in ref["totals"]}
         stale = list(getattr(T, "listOfVolIntegratedParamsToScale", []) or [])
+        ever_before = set(_EVER_ASSIGNED)
         src_snap = {}
         for a in core:
             if ij(a) in pre_nonedge:
@@ -962,6 +1036,9 @@ class Case:
         if not ok:
             return "convert-crashed"
         self.T_active = T
+        self.full_centre, self.full_assigned = {}, False
+        self.conv_list = list(getattr(T, "listOfVolIntegratedParamsToScale", []) or [])
+        self.ever_before_convert = ever_before
         self.added_by_convert = len(core) - len(pre_nonedge)
         w = self.w(state_before=st)
         # 1. cells
@@ -1205,7 +1282,7 @@ class Case:
                 self.judge_same(before, self.observe(), "restore-with-nothing-to-restore-not-a-noop", "noop.obs")
             return "restore-idle"
         T = self.T_active
-        self.hist.append("restore")
+        self.hist.append("restore" + ("[after writing parameters on the full core]" if self.full_assigned else ""))
         use_arg = self.rng.random() < .5
         ok = self.guarded("restorePreviousGeometry", lambda: T.restorePreviousGeometry(self.r) if use_arg else T.restorePreviousGeometry())
         self.T_active = None
@@ -1213,6 +1290,7 @@ class Case:
         if self.added_by_convert:
             self.noop_add_edge_pending = False
         if not ok:
+            self.full_centre, self.full_assigned = {}, False
             return "restore-crashed"
         w = self.w()
         lookups_ok(self.core, self.rec, w, "after restorePreviousGeometry")
@@ -1221,16 +1299,49 @@ class Case:
             self.rec.violation("restore/core-still-full/%s" % ("convert-had-added-no-assembly" if self.added_by_convert == 0 else "other"),
                                "after restorePreviousGeometry the core is still %s with %d assemblies (convert had added %d)" % (self.core.symmetry, len(self.core), self.added_by_convert), w)
             return "restore-left-full"
-        if self.zones_obs() != getattr(self, "ref_zones", {}):
-            # observed, not judged: zones are not among the things the property calls the state of the core
-            self.rec.skip("observation: after restorePreviousGeometry core.zones still lists the locations of the removed assemblies (zones are outside the property's state)")
+        self.judge_zones("restore", "restore.zones")
         if self.ref is not None:
+            self.judge_full_assigned_centre(w)
             self.judge_same(self.ref, self.observe(), "restore", "restore.obs", centre_scaled=True)
             if self.ref_derived is not None:
                 self.judge_derived("restore")
         if self.state() == "third":
             self.take_ref_keep_scaled()
         return "restore"
+
+    def judge_full_assigned_centre(self, w):
+        """Volume-integrated values the harness wrote on the centre assembly while the core was full: a third of them now."""
+        todo, self.full_centre, self.full_assigned = self.full_centre, {}, False
+        centre = next((a for a in self.core if ij(a) == (0, 0)), None)
+        if not todo or centre is None or self.ref is None or (0, 0) not in self.ref["assems"]:
+            return
+        blocks = list(centre)
+        groups = {}
+        for (kb, nme), v in sorted(todo.items()):
+            self.rec.hit("restore.centre-thirds")
+            got = blocks[kb].p[nme]
+            want = third_of(v)
+            gv, wv = as_vec(got), as_vec(want)
+            ok = gv is not None and wv is not None and len(gv) == len(wv) and all(rc(g, x, TOLERANCES["restore_scaled_rel"], 1e-300) for g, x in zip(gv, wv))
+            if ok:
+                continue
+            # name the mechanism only when history and observation are exactly what it predicts: the harness wrote this parameter
+            # for the first time in this process while the core was full (nothing had written it when convert started, so its
+            # definition carried no assigned-flag and armi did not put it on the list it scales on the centre), and the value is
+            # still exactly the one written on the full core
+            fv = as_vec(v)
+            if gv is not None and gv == fv and nme not in self.ever_before_convert and nme not in self.conv_list:
+                mech = "parameter-first-assigned-on-the-full-core"
+            else:
+                mech = "other"
+            groups.setdefault(mech, []).append((kb, nme, v, got))
+            self.ref["assems"][(0, 0)]["blocks"][kb]["p"][nme] = nv(got)  # reported here, once
+        for mech, items in sorted(groups.items()):
+            kb, nme, v, got = items[0]
+            self.rec.violation("restore/centre-volume-integrated-value-written-on-full-core-not-divided-by-3/%s" % mech,
+                               "p.%s of block %d of the centre assembly was set to %s while the core was full; after restorePreviousGeometry it is %s, a third would be %s (%d values off this way: %s)" % (
+                                   nme, kb, _short(v), _short(got), _short(third_of(v)), len(items), sorted({i[1] for i in items})[:6]),
+                               dict(w, parameters=sorted({i[1] for i in items})[:10], scaled_by_convert=len(self.conv_list)))
 
     def take_ref_keep_scaled(self):
         # the centre's scaled values may differ by one rounding from the old reference; from here on the new values are the state
@@ -1299,12 +1410,166 @@ class Case:
         self.noop_add_edge_pending = False
         if self.edge_cells():
             self.rec.violation("removeEdge/edge-assemblies-left", "cells %s on the 120-degree line still occupied" % (self.edge_cells(),), w)
+        self.judge_zones("edge-roundtrip", "edge-roundtrip.zones")
         if self.ref is not None:
             self.judge_same(self.ref, self.observe(), "edge-roundtrip", "edge-roundtrip.obs")
             if self.ref_derived is not None:
                 self.judge_derived("edge-roundtrip")
         self.take_ref()
         return "removeEdge"
+
+
+    # -- EdgeAssemblyChanger.scaleParamsRelatedToSymmetry
+    def twin_pairs(self):
+        """(cell on the 0-degree line, its assembly, the cell 120 degrees further, the assembly there) - by rotating the cell centre."""
+        by = {ij(a): a for a in self.core}
+        out = []
+        for c, a in sorted(by.items()):
+            if line_of(c[0], c[1], self.cu) == "0":
+                t = self.cells.image(c[0], c[1], 120)
+                if t in by and line_of(t[0], t[1], self.cu) == "120":
+                    out.append((c, a, t, by[t]))
+        return out
+
+    def op_scale_edge(self):
+        """Two halves -> one whole hexagon: 'These params are at half their full hex value. Scale them right before deleting
+        their symmetric identicals. The two operations (scaling them and then removing others) is identical to combining two
+        half-assemblies into a full one.'"""
+        import numpy as np
+        from armi.reactor.converters import geometryConverters as gc
+
+        rec, rng, core = self.rec, self.rng, self.core
+        pairs = self.twin_pairs()
+        if not pairs or any(len(a) != len(a2) for _, a, _, a2 in pairs):
+            rec.skip("scaleParamsRelatedToSymmetry: no complete pair of twins on the two symmetry lines")
+            self.hist.append("scaleEdge(skipped)")
+            return "scaleEdge-skipped"
+        vi = vi_names(core)
+        b0 = core.getFirstBlock()
+        scalars = [n for n in catalog(b0).get("VOLUME_INTEGRATED", [])]
+        picks = [(n, "scalar") for n in rng.sample(scalars, min(len(scalars), rng.randint(1, 4)))]
+        if "power" in scalars and rng.random() < .5 and ("power", "scalar") not in picks:
+            picks.append(("power", "scalar"))
+        for n in rng.sample(VI_ARRAYS, rng.randint(0, 3) if rng.random() < .3 else rng.randint(1, 3)):
+            picks.append((n, rng.choice(["list", "list", "array"])))
+        mode = rng.choice(["halves", "distinct"])
+        ng = rng.choice([1, 2, 4])
+        names = [n for n, _ in picks]
+        # 1. write the halves (what a flux solution on the edge-carrying model leaves behind)
+        want = {}   # (lower cell, block index, name) -> (kind, expected numeric content)
+        for c, a, t, a2 in pairs:
+            for kb, (b, b2) in enumerate(zip(a, a2)):
+                for n, kind in picks:
+                    cur = as_vec(b.p[n])
+                    if kind == "scalar":
+                        if mode == "halves":
+                            full = cur[0] if (cur and len(cur) == 1 and cur[0] != 0.0 and abs(cur[0]) > 1e-280 and math.isfinite(cur[0])) else nice_float(rng)
+                            x = y = full / 2
+                        else:
+                            x, y = nice_float(rng), nice_float(rng)
+                            if x + y == 0.0:
+                                y = 2 * y
+                    else:
+                        if mode == "halves":
+                            full = cur if (cur and len(cur) == ng and all(f > 1e-280 and math.isfinite(f) for f in cur)) else [abs(nice_float(rng)) for _ in range(ng)]
+                            x, y = [f / 2 for f in full], [f / 2 for f in full]
+                        else:
+                            x, y = [abs(nice_float(rng)) for _ in range(ng)], [abs(nice_float(rng)) for _ in range(ng)]
+                        if kind == "array":
+                            x, y = np.array(x), np.array(y)
+                    b.p[n] = x
+                    b2.p[n] = y
+                    _EVER_ASSIGNED.add(n)
+                    lo, up = as_vec(b.p[n]), as_vec(b2.p[n])  # what armi stored
+                    want[(c, kb, n)] = (kind, [p_ + q_ for p_, q_ in zip(lo, up)])
+        # 2. all parameters armi will consider (None) or only the ones just written (subset)
+        flux_names = set(VI_ARRAYS)
+
+        def compatible(lo, up, n):
+            if lo is None or not np.any(lo):
+                return True  # documented: only non-zero values are scaled
+            lv, uv = as_vec(lo), as_vec(up)
+            if lv is None or uv is None or len(lv) != len(uv):
+                return False
+            return n in flux_names or not isinstance(lo, list)
+
+        all_ok = all(compatible(b.p[n], b2.p[n], n) for _, a, _, a2 in pairs for b, b2 in zip(a, a2) for n in vi)
+        subset = None if (all_ok and rng.random() < .4) else list(names)
+        if subset is not None and rng.random() < .5:
+            rng.shuffle(subset)
+        self.hist.append("scaleEdge(%s,%s,%s)" % (mode, "all parameters" if subset is None else "subset", "+".join(sorted({k for _, k in picks}))))
+        self.kinds_since |= {"edge-halves-" + k for _, k in picks}
+        before = self.observe()
+        vol_full = {(c, kb): sum(comp.getVolume() for comp in b) for c, a, _, _ in pairs for kb, b in enumerate(a)}
+        upper_vals = {(c, kb, n): as_vec(b2.p[n]) for c, _, _, a2 in pairs for kb, b2 in enumerate(a2) for n in vi}
+        if not self.guarded("scaleParamsRelatedToSymmetry", lambda: gc.EdgeAssemblyChanger.scaleParamsRelatedToSymmetry(core, subset) if subset is not None
+                            else gc.EdgeAssemblyChanger.scaleParamsRelatedToSymmetry(core)):
+            return "scaleEdge-crashed"
+        w = self.w(pairs=[[list(c), list(t)] for c, _, t, _ in pairs], subset=subset)
+        after = self.observe()
+        rec.hit("scaleEdge.sums")
+        rel = TOLERANCES["edge_sum_rel"]
+        flux_of = {"mgFlux": "flux", "adjMgFlux": "fluxAdj", "mgFluxGamma": "fluxGamma"}
+        reported = set()
+        allowed = {}  # (cell, kb, name) -> True where the new value was judged here (or is one of the two documented outcomes)
+        for (c, kb, n), (kind, exp) in sorted(want.items()):
+            rec.add("scaleEdge.values")
+            got = _stored(after, c, kb, n)
+            allowed[(c, kb, n)] = True
+            if got is None or len(got) != len(exp) or any(not rc(g, x, rel, 1e-300) for g, x in zip(got, exp)):
+                key = "scaleEdge/%s-not-sum-of-the-two-halves" % ("scalar" if kind == "scalar" else "multigroup-flux")
+                if key not in reported:
+                    reported.add(key)
+                    rec.violation(key, "after scaleParamsRelatedToSymmetry p.%s of block %d in %s is %s; the two halves stored in %s and its twin add up to %s" % (
+                        n, kb, c, _short(got), c, _short(exp)), dict(w, parameter=n))
+            if n in flux_of:
+                fn = flux_of[n]
+                allowed[(c, kb, fn)] = True
+                fexp = sum(exp) / vol_full[(c, kb)]
+                fgot = _stored(after, c, kb, fn)
+                rec.add("scaleEdge.fluxes")
+                if fgot is None or len(fgot) != 1 or not rc(fgot[0], fexp, TOLERANCES["edge_flux_rel"], 1e-300):
+                    key = "scaleEdge/scalar-flux-not-total-over-whole-hexagon"
+                    if key not in reported:
+                        reported.add(key)
+                        rec.violation(key, "p.%s of block %d in %s is %s after combining the halves; sum(p.%s)/volume of the whole hexagon = %r (volume %r)" % (
+                            fn, kb, c, _short(fgot), n, fexp, vol_full[(c, kb)]), dict(w, parameter=fn))
+        if subset is None:
+            # parameters the harness did not write just now: armi scales the ones 'assigned since the edge assemblies were added';
+            # the docstring does not say which those are, so either outcome (untouched, or the two halves added up) is accepted
+            for c, a, _, _ in pairs:
+                for kb in range(len(a)):
+                    for n in vi:
+                        if (c, kb, n) in want:
+                            continue
+                        if before["assems"][c]["blocks"][kb]["p"].get(n) == after["assems"][c]["blocks"][kb]["p"].get(n):
+                            continue
+                        old, new = _stored(before, c, kb, n), _stored(after, c, kb, n)
+                        up = upper_vals.get((c, kb, n))
+                        if old is None or new is None or up is None or len(up) != len(old) or len(new) != len(old):
+                            continue
+                        if all(rc(g, p_ + q_, rel, 1e-300) for g, p_, q_ in zip(new, old, up)):
+                            allowed[(c, kb, n)] = True
+                            rec.add("scaleEdge.other-parameters-added-up")
+                            if n in flux_of:
+                                allowed[(c, kb, flux_of[n])] = True
+        # 3. nothing else moved: the twins on the 120-degree line, every other assembly, every other parameter
+        patched = before
+        for (c, kb, n) in allowed:
+            patched["assems"][c]["blocks"][kb]["p"][n] = after["assems"][c]["blocks"][kb]["p"].get(n)
+        self.judge_same(patched, after, "scaleEdge-changed-something-else", "scaleEdge.rest")
+        # from here on the sums are the state of the assemblies on the 0-degree line
+        if self.ref is not None:
+            for (c, kb, n) in allowed:
+                ent = self.ref["assems"].get(c)
+                if ent is not None:
+                    ent["blocks"][kb]["p"][n] = after["assems"][c]["blocks"][kb]["p"].get(n)
+        return "scaleEdge"
+
+
+def _stored(o, cell, kb, name):
+    """raw numeric content of a parameter out of an observation (normal form -> flat floats or None)"""
+    return _numeric(o["assems"][cell]["blocks"][kb]["p"].get(name))
 
 
 def _short(v):
@@ -1315,14 +1580,14 @@ def _short(v):
 def pick_op(rng, st, case):
     if st == "full":
         if case.T_active is not None:
-            return rng.choice(["restore"] * 6 + ["convert-noop", "addEdge", "removeEdge", "restore-idle"])
+            return rng.choice(["restore"] * 6 + ["assign"] * 2 + ["convert-noop", "addEdge", "removeEdge", "restore-idle"])
         return rng.choice(["convert-noop", "addEdge", "removeEdge", "restore-idle"])  # a full-core blueprint: not generated
     if st == "third":
         if case.has_line0() and rng.random() < .35:
             return rng.choice(["addEdge-new", "addEdge-new", "addEdge-reuse"])
         return rng.choice(["convert-new"] * 4 + ["convert-reuse"] * 2 + ["convert-grow", "addEdge-new", "addEdge-new", "addEdge-new", "addEdge-reuse",
                           "assign", "assign", "assign", "removeEdge", "restore-idle"])
-    return rng.choice(["removeEdge"] * 4 + ["removeEdge-fresh"] * 2 + ["convert-new"] * 3 + ["convert-reuse", "assign", "assign", "addEdge-reuse", "addEdge-new"])
+    return rng.choice(["removeEdge"] * 4 + ["removeEdge-fresh"] * 2 + ["convert-new"] * 3 + ["scaleEdge"] * 4 + ["convert-reuse", "assign", "assign", "addEdge-reuse", "addEdge-new"])
 
 
 def run_shard(spec, rec):
@@ -1384,6 +1649,8 @@ def run_shard(spec, rec):
                 res = case.op_restore(idle=True)
             elif op.startswith("addEdge"):
                 res = case.op_add_edge(reuse=op.endswith("reuse"))
+            elif op == "scaleEdge":
+                res = case.op_scale_edge()
             else:
                 res = case.op_remove_edge(fresh=op.endswith("fresh"))
             sig = [res, st, meta["rings"], meta["policy"], meta["centre"], sorted(case.kinds_since)]
@@ -1396,6 +1663,9 @@ def run_shard(spec, rec):
             case.op_restore()
             rec.case(["restore", "full", meta["rings"], meta["policy"], meta["centre"], []], nontrivial=len(meta["cells"]) > 1)
         if case.state() == "third+edges":
+            if rng.random() < .85:  # the documented order: combine the halves, then delete the symmetric identicals
+                res = case.op_scale_edge()
+                rec.case([res, "third+edges", meta["rings"], meta["policy"], meta["centre"], sorted(case.kinds_since)], nontrivial=len(meta["cells"]) > 1)
             case.op_remove_edge(fresh=rng.random() < .5)
             rec.case(["removeEdge", "third+edges", meta["rings"], meta["policy"], meta["centre"], []], nontrivial=len(meta["cells"]) > 1)
         rec.add("cores_built")
